@@ -336,7 +336,11 @@ func (C20) AfterCall(w *World, c *Call) {
 		}
 		fixed := fixedRefs(in.nodes[string(step.NodeUUID())])
 		for _, n := range named {
-			if !fixed[n] {
+			// kinds of asset an action can only name by a fixed reference (there are no expression
+			// references to flows, classifiers, templates or opt-ins): whatever the run touched
+			// must be listed, even if the node's definition names another one
+			onlyFixed := strings.HasPrefix(n, "flow:") || strings.HasPrefix(n, "classifier:") || strings.HasPrefix(n, "template:") || strings.HasPrefix(n, "optin:") // (a ticket opened without a topic gets the workspace's default one: not a reference)
+			if !fixed[n] && !onlyFixed {
 				continue // variable reference or side effect (query-based groups): excepted
 			}
 			if !in.deps[n] {
